@@ -9,7 +9,7 @@ from vf.pyvc.engine import (Exec, Path, Dyn, Rng, Tup, Opaque, NONE, Raised, Sym
                             T_NONE, T_INT, T_COMPONENT, T_OTHER, Unsupported, AbsSeq)
 from vf.pyvc.driver import FnVerifier
 from . import memory_model as mm
-from .memory_replay import make_replay
+from .memory_replay import make_replay, make_static_replay
 
 FILE = "amaranth_soc/memory.py"
 AX = POW2_AXIOMS
@@ -134,6 +134,10 @@ def verify_align_up():
     outs = ex.run(fn, Path(pc=[v >= 0, a >= 0], env={"value": v, "alignment": a}))
     fv.paths = len(outs)
     for k, o in enumerate(outs):
+        def _call(value, alignment):
+            from amaranth_soc.memory import MemoryMap
+            return MemoryMap._align_up(value, alignment)
+        fv.default_replay = make_static_replay(_call, [v, a], o, ex)
         if o.kind != "return":
             fv.add("no-exception", f"path{k}", o.path.pc, z3.BoolVal(False)); continue
         r = ex.toint(o.value)
@@ -190,6 +194,7 @@ def verify_compute_addr_range():
     q.assume(z3.And(addr.wf(), size.wf(), step >= 1, alignment >= 0))
     view0 = h["view"]
     q.env.update({"self": self_, "addr": addr, "size": size, "step": step, "alignment": alignment})
+    fv.scope_hints = [view0.n == 0, view0.n == 1]
     outs = ex.run(fn, q)
     fv.paths = len(outs)
     n_ret = 0
@@ -226,6 +231,7 @@ def verify_add_resource():
     # a component's identity is not the identity of a registered window
     q.assume(z3.Implies(resource.tag == T_COMPONENT, z3.Not(view0.iswin[resource.ident])))
     q.env.update({"self": self_, "resource": resource, "name": name, "size": size, "addr": addr, "alignment": alignment})
+    fv.scope_hints = [view0.n == 0, view0.n == 1]
     outs = ex.run(fn, q)
     fv.paths = len(outs)
     n_ret = 0
@@ -267,5 +273,270 @@ def verify_add_resource():
         for nm, f in mm.wf_map_parts(v, h["aw"], h["dw"], h["al"], nxt):
             fv.add("wf-preserved:" + nm, f"path{k}", p.pc, f)
     fv.add("cover:some-path-returns", "vacuity", [], z3.BoolVal(n_ret > 0))
+    fv.add_engine_obligations(ex)
+    return fv
+
+
+# ---- add_window -----------------------------------------------------------------------------------------
+def c_is_available_ast(ex, e, recv, q):
+    """self._namespace.is_available(*queries, reasons=...) -- availability is an uninterpreted fact here (C18)."""
+    return [(z3.FreshBool("name_available"), q)]
+
+
+c_is_available_ast.takes_ast = True
+
+
+def c_inline_method(qual):
+    def h(ex, recv, args, kwargs, q, node):
+        fn = find_def(FILE, qual)
+        return ex.inline(fn, [recv] + list(args), kwargs, q, node)
+    return h
+
+
+def verify_add_window():
+    fv = FnVerifier("MemoryMap.add_window", AX)
+    fn = find_def(FILE, "MemoryMap.add_window")
+    n_ret = 0
+    for case in ("map", "not-a-map"):
+        ex = base_exec()
+        ex.contracts["self._namespace.is_available"] = c_is_available_ast
+        ex.contracts["MemoryMap.freeze"] = c_inline_method("MemoryMap.freeze")
+        q = Path()
+        self_, h = fresh_self(q)
+        view0 = h["view"]
+        name, addr, sparse = Dyn("name"), Dyn("addr"), Dyn("sparse")
+        q.assume(z3.And(name.wf(), addr.wf(), sparse.wf()))
+        if case == "map":
+            window, wh = mm.new_map("window", q)
+            q.ghost[("handles", id(window))] = wh
+            # a MemoryMap is not a wiring.Component; id() injective: the window's identity is not a registered resource
+            q.assume(z3.Not(view0.isres[window.ref]))
+        else:
+            window = Opaque("not a MemoryMap")
+        q.env.update({"self": self_, "window": window, "name": name, "addr": addr, "sparse": sparse})
+        fv.scope_hints = [z3.And(view0.n == 0, wh["view"].n == 0), z3.And(view0.n == 1, wh["view"].n == 0)] if case == "map" else [view0.n == 0]
+        outs = ex.run(fn, q)
+        fv.paths += len(outs)
+        for k, o in enumerate(outs):
+            p = o.path
+            lab = f"{case}:path{k}"
+            fv.default_replay = make_replay("add_window", h, [(None, ("MAP", wh, window)), ("name", ("NAMEDYN", name)), ("addr", addr), ("sparse", sparse)],
+                                            o, ex, self_) if case == "map" else None
+            if o.kind == "raise":
+                fv.add("raises-only-ValueError-or-TypeError", lab, p.pc, z3.BoolVal(o.exc in ("ValueError", "TypeError")))
+                fv.add("raise-leaves-state-unchanged", lab, p.pc, unchanged(ex, p, self_, h, view0))
+                if case == "map":
+                    wf_now = ex.getattr(window, "_frozen", p, None)[0][0]
+                    fv.add("raise-leaves-window-unfrozen", lab, p.pc, wf_now == wh["frozen"])
+                continue
+            fv.add("non-map-is-refused", lab, p.pc, z3.BoolVal(case == "map"))
+            if case != "map":
+                continue
+            n_ret += 1
+            start, stop, step = [ex.toint(x) for x in o.value]
+            v = mm.view_of(p, self_)
+            nxt = ex.getattr(self_, "_next_addr", p, None)[0][0]
+            dw, wdw, waw, wal = h["dw"], wh["dw"], wh["aw"], wh["al"]
+            dense = z3.Not(ex.truth(sparse))
+            ratio1 = z3.Or(z3.Not(dense), dw == wdw)
+            eff1 = z3.If(h["al"] >= waw, h["al"], waw)
+            pos = p.ghost.get("insert_pos")
+            clauses = [
+                ("frozen-map-refuses", z3.Not(h["frozen"])),
+                ("not-added-twice", z3.Not(view0.iswin[window.ref])),
+                ("window-not-wider", wdw <= dw),
+                ("mode-given-when-widths-differ", z3.Implies(wdw != dw, sparse.tag != T_NONE)),
+                ("dense-needs-integer-ratio", z3.Implies(z3.And(wdw != dw, dense), dw % wdw == 0)),
+                ("ratio-reported", z3.Implies(ratio1, step == 1)),
+                ("dense-ratio-reported", z3.Implies(z3.Not(ratio1), z3.And(step * wdw == dw, step >= 2))),
+                ("explicit-addr-honoured", z3.Implies(addr.tag != T_NONE, start == addr.ival)),
+                ("implicit-addr-first-aligned-after-cursor[ratio1]",
+                 z3.Implies(z3.And(ratio1, addr.tag == T_NONE), least_multiple_ge(start, h["next"], eff1))),
+                ("size-covers-window[ratio1]", z3.Implies(ratio1, least_multiple_ge(stop - start, pow2(waw), eff1))),
+                ("size-covers-window-span-over-ratio[dense]", z3.Implies(z3.Not(ratio1), stop - start >= pow2(waw) / step)),
+                ("in-bounds", z3.And(0 <= start, start < stop, stop <= pow2(h["aw"]))),
+                ("disjoint-from-existing", mm.no_overlap(view0, start, stop)),
+                ("cursor-advanced-to-end", nxt == stop),
+                ("window-frozen", ex.getattr(window, "_frozen", p, None)[0][0] == True),
+                ("recorded-in-ranges", mm.inserted(view0, v, pos, start, stop, step, window.ref) if pos is not None else z3.BoolVal(False)),
+                ("recorded-as-window", z3.And(v.iswin[window.ref], v.wS[window.ref] == start, v.wE[window.ref] == stop,
+                                              v.wT[window.ref] == step)),
+                ("others-unchanged", z3.ForAll([mm._i], z3.Implies(mm._i != window.ref, z3.And(
+                    v.isres[mm._i] == view0.isres[mm._i], v.iswin[mm._i] == view0.iswin[mm._i],
+                    v.rS[mm._i] == view0.rS[mm._i], v.rE[mm._i] == view0.rE[mm._i],
+                    v.wS[mm._i] == view0.wS[mm._i], v.wE[mm._i] == view0.wE[mm._i], v.wT[mm._i] == view0.wT[mm._i])))),
+                ("frozen-flag-untouched", ex.getattr(self_, "_frozen", p, None)[0][0] == h["frozen"]),
+            ]
+            for nm, f in clauses:
+                fv.add(nm, lab, p.pc, f)
+            for nm, f in mm.wf_map_parts(v, h["aw"], h["dw"], h["al"], nxt):
+                fv.add("wf-preserved:" + nm, lab, p.pc, f)
+        fv.add_engine_obligations(ex)
+    fv.add("cover:some-path-returns", "vacuity", [], z3.BoolVal(n_ret > 0))
+    return fv
+
+
+def verify_freeze():
+    fv = FnVerifier("MemoryMap.freeze", AX)
+    fn = find_def(FILE, "MemoryMap.freeze")
+    ex = base_exec()
+    q = Path()
+    self_, h = fresh_self(q)
+    view0 = h["view"]
+    q.env["self"] = self_
+    outs = ex.run(fn, q)
+    fv.paths = len(outs)
+    for k, o in enumerate(outs):
+        p = o.path
+        fv.add("no-exception", f"path{k}", p.pc, z3.BoolVal(o.kind == "return"))
+        fv.add("sets-frozen", f"path{k}", p.pc, ex.getattr(self_, "_frozen", p, None)[0][0] == True)
+        fv.add("nothing-else-changes", f"path{k}", p.pc, z3.And(ex.getattr(self_, "_next_addr", p, None)[0][0] == h["next"],
+                                                                  z3.BoolVal(mm.view_of(p, self_) is view0)))
+    fv.add_engine_obligations(ex)
+    return fv
+
+
+# ---- resources() / windows(): generators over filter(closure, self._ranges.items()) ---------------------------
+def loop_filter_items(ex, st_node, path):
+    """for <targets> in filter(<closure>, self._ranges.items()): one arbitrary iteration.
+    _RangeMap.items() contract (proved in rangemap.verify_items): yields (key_k, value_k) for k = 0..n-1 in order.
+    filter() (builtin, assumed): passes exactly the items for which the closure is truthy, in order."""
+    it = st_node.iter
+    if not (isinstance(it, ast.Call) and ast.unparse(it.func) == "filter" and len(it.args) == 2 and isinstance(it.args[0], ast.Name)):
+        ex.unsupported(st_node, "loop iterable")
+    out = []
+    for src, q in ex.eval(it.args[1], path):
+        if not (isinstance(src, tuple) and src and src[0] == "items"):
+            ex.unsupported(st_node, "filter source")
+        owner = src[1]
+        v = mm.view_of(q, owner)
+        k = z3.FreshInt("iter_idx")
+        body = q.fork()
+        body.assume(z3.And(0 <= k, k < v.n))
+        item = Tup((Rng(v.S[k], v.E[k], v.T[k]), mm.Ref(v.V[k])))
+        closure = body.ghost["closures"][it.args[0].id]
+        for keep, q2 in ex.inline(closure, [item], {}, body, st_node, base_env=body.env):
+            if isinstance(keep, Raised):
+                out.append(("raise", keep.exc, q2)); continue
+            q2.assume(ex.truth(keep))
+            q2.ghost["iter_idx"] = k
+            for kind, _, q3 in ex.assign(st_node.target, item, q2, st_node):
+                for kind2, val2, q4 in ex.block(st_node.body, q3):
+                    if kind2 == "raise":
+                        out.append((kind2, val2, q4))
+        out.append(("fall", None, q))
+    return out
+
+
+import ast
+
+
+def _verify_listing(method, kind):
+    fv = FnVerifier(f"MemoryMap.{method}", AX)
+    fn = find_def(FILE, f"MemoryMap.{method}")
+    ex = base_exec()
+    ex.loop_invariants[0] = loop_filter_items
+    q = Path()
+    self_, h = fresh_self(q)
+    view0 = h["view"]
+    q.env["self"] = self_
+    outs = ex.run(fn, q)
+    fv.paths = len(outs)
+    for k, o in enumerate(outs):
+        fv.add("no-exception", f"path{k}", o.path.pc, z3.BoolVal(o.kind == "return"))
+        fv.add("modifies-nothing", f"path{k}", o.path.pc, unchanged(ex, o.path, self_, h, view0))
+    for k, (val, p) in enumerate(ex.yields):
+        idx = p.ghost["iter_idx"]
+        member = view0.isres if kind == "res" else view0.iswin
+        obj, name, rng = val
+        fv.add("only-registered-items-are-reported", f"yield{k}", p.pc, member[view0.V[idx]])
+        fv.add("reports-the-object-of-the-k-th-range", f"yield{k}", p.pc, obj.ident == view0.V[idx])
+        if kind == "res":
+            fv.add("reports-exactly-the-handed-out-range", f"yield{k}", p.pc,
+                   z3.And(ex.toint(rng[0]) == view0.S[idx], ex.toint(rng[1]) == view0.E[idx],
+                          ex.toint(rng[0]) == view0.rS[view0.V[idx]], ex.toint(rng[1]) == view0.rE[view0.V[idx]]))
+        else:
+            fv.add("reports-exactly-the-handed-out-range", f"yield{k}", p.pc,
+                   z3.And(ex.toint(rng[0]) == view0.S[idx], ex.toint(rng[1]) == view0.E[idx], ex.toint(rng[2]) == view0.T[idx],
+                          ex.toint(rng[0]) == view0.wS[view0.V[idx]], ex.toint(rng[2]) == view0.wT[view0.V[idx]]))
+        fv.add("name-is-the-registered-name", f"yield{k}", p.pc,
+               z3.BoolVal(isinstance(name, mm.NameOf)) if not isinstance(name, mm.NameOf) else name.ident == view0.V[idx])
+    # order: items come in index order and wf gives E[i] <= S[j] for i<j  => ascending, pairwise disjoint report
+    i, j = z3.Ints("oi oj")
+    fv.add("index-order-is-ascending-address-order", "lemma", list(q.pc),
+           z3.ForAll([i, j], z3.Implies(z3.And(0 <= i, i < j, j < view0.n), z3.And(view0.S[i] < view0.S[j], view0.E[i] <= view0.S[j]))))
+    fv.add("every-registered-object-is-reported", "lemma", list(q.pc),
+           z3.ForAll([i], z3.Implies((view0.isres if kind == "res" else view0.iswin)[i],
+                                     z3.And(0 <= view0.idx[i], view0.idx[i] < view0.n, view0.V[view0.idx[i]] == i))))
+    fv.add("cover:yields", "vacuity", [], z3.BoolVal(len(ex.yields) > 0))
+    fv.add_engine_obligations(ex)
+    return fv
+
+
+def verify_resources():
+    return _verify_listing("resources", "res")
+
+
+def verify_windows():
+    return _verify_listing("windows", "win")
+
+
+def verify_init():
+    """MemoryMap.__init__ establishes the representation invariant (empty map) or raises ValueError."""
+    fv = FnVerifier("MemoryMap.__init__", AX)
+    fn = find_def(FILE, "MemoryMap.__init__")
+    ex = base_exec()
+    from vf.pyvc.engine import Empty
+    ex.contracts["_RangeMap"] = lambda ex, recv, a, k, q, n: [(Opaque("fresh _RangeMap"), q)]
+    ex.contracts["_Namespace"] = lambda ex, recv, a, k, q, n: [(Opaque("fresh _Namespace"), q)]
+    q = Path()
+    self_ = SymObj("MemoryMap", "self")
+    aw, dw, al = Dyn("addr_width"), Dyn("data_width"), Dyn("alignment")
+    q.assume(z3.And(aw.wf(), dw.wf(), al.wf()))
+    q.env.update({"self": self_, "addr_width": aw, "data_width": dw, "alignment": al})
+    outs = ex.run(fn, q)
+    fv.paths = len(outs)
+    valid = z3.And(aw.tag == T_INT, aw.ival > 0, dw.tag == T_INT, dw.ival > 0, al.tag == T_INT, al.ival >= 0)
+    n_ret = 0
+    for k, o in enumerate(outs):
+        p = o.path
+        if o.kind == "raise":
+            fv.add("raises-only-ValueError", f"path{k}", p.pc, z3.BoolVal(o.exc == "ValueError"))
+            fv.add("raises-only-for-invalid-geometry", f"path{k}", p.pc, z3.Not(valid))
+            continue
+        n_ret += 1
+        g = lambda f: p.heap.get((id(self_), f))
+        fv.add("accepts-only-valid-geometry", f"path{k}", p.pc, valid)
+        fv.add("geometry-stored", f"path{k}", p.pc, z3.And(ex.toint(g("_addr_width")) == aw.ival, ex.toint(g("_data_width")) == dw.ival,
+                                                           ex.toint(g("_alignment")) == al.ival))
+        fv.add("cursor-starts-at-0-unfrozen", f"path{k}", p.pc, z3.And(ex.toint(g("_next_addr")) == 0, g("_frozen") == False))
+        fv.add("containers-fresh-and-empty", f"path{k}", p.pc,
+               z3.BoolVal(isinstance(g("_resources"), Empty) and isinstance(g("_windows"), Empty)
+                          and isinstance(g("_ranges"), Opaque) and isinstance(g("_namespace"), Opaque)))
+        # the empty view satisfies the representation invariant
+        v = mm.MapView("_empty")
+        pre = [v.n == 0, z3.ForAll([mm._i], z3.And(z3.Not(v.isres[mm._i]), z3.Not(v.iswin[mm._i])))]
+        for nm, f in mm.wf_map_parts(v, aw.ival, dw.ival, al.ival, z3.IntVal(0)):
+            fv.add("establishes-wf:" + nm, f"path{k}", p.pc + pre, f)
+    fv.add("cover:some-path-returns", "vacuity", [], z3.BoolVal(n_ret > 0))
+    fv.add_engine_obligations(ex)
+    return fv
+
+
+def verify_rangemap_init():
+    fv = FnVerifier("_RangeMap.__init__", AX)
+    fn = find_def(FILE, "_RangeMap.__init__")
+    ex = base_exec()
+    from vf.pyvc.engine import Empty
+    q = Path()
+    self_ = SymObj("_RangeMap", "self")
+    q.env["self"] = self_
+    outs = ex.run(fn, q)
+    fv.paths = len(outs)
+    for k, o in enumerate(outs):
+        p = o.path
+        fv.add("no-exception", f"path{k}", p.pc, z3.BoolVal(o.kind == "return"))
+        fv.add("all-four-containers-empty", f"path{k}", p.pc,
+               z3.BoolVal(all(isinstance(p.heap.get((id(self_), f)), Empty) for f in ("_keys", "_values", "_starts", "_stops"))))
     fv.add_engine_obligations(ex)
     return fv
